@@ -80,6 +80,10 @@ func init() {
 					return ""
 				})
 			}
+			// output side: StreamOut.tla
+			o := c.mcHolds("StreamOut", "StreamOut_"+c.tier+".cfg", tlcOpts{})
+			oc, or := c.replay("streamout", o.cases, replayOpts{opts: map[string]string{"tmp": c.work}, chunk: 16})
+			c.judge("streamout", oc, or, func(cs, res map[string]J) string { in, _ := res["input"].(string); return in })
 			c.exhaustive = true
 		},
 	}
